@@ -139,9 +139,14 @@ def repair_prog(rng, pid, damage):
             "opts": {"damage": damage, "which": rng.randint(0, 20)}}
 
 
-def copy_prog(rng, pid, collide, k=0):
+def copy_prog(rng, pid, collide, k=0, pruned=False):
     nid = [0]
     base = rand_entries(rng, PLAIN + ODD[:3], 3, nid)
+    if pruned:
+        for d in ("pa", "pb"):
+            if not any(e["path"] == d for e in base):
+                base.append({"path": d, "kind": "dir", "mtime": T0, "ctime": T0, "inode": 900 + len(base)})
+                base.append({"path": d + "/f", "kind": "file", "seed": 900 + len(base), "size": 130, "mtime": T0, "ctime": T0, "inode": 900 + len(base)})
     sources = [base]
     for _ in range(rng.randint(0, 2)):
         more = [dict(e) for e in sources[-1] if rng.random() < 0.8]
@@ -153,6 +158,24 @@ def copy_prog(rng, pid, collide, k=0):
          "opts": {"twice": rng.random() < 0.4}}
     if rng.random() < 0.5:
         p["dest_pre"] = [[dict(e) for e in base if rng.random() < 0.5 and e["kind"] == "file" and "/" not in e["path"]]]
+    if not collide and (pruned or rng.random() < 0.25):
+        # the destination has a history of its own: it once held the snapshot to be copied next to two partial ones, forgot
+        # it and pruned - with repacking off a kept pack may still list the snapshot's root tree while its children are gone
+        full = sources[0] if pruned else sources[rng.randrange(len(sources))]
+        tops = sorted({e["path"].split("/")[0] for e in full})
+        if len(tops) >= 2:
+            # the snapshot's own trees land in one pack of the second backup; the third backup keeps part of that pack in use
+            # (pb) while everything only the first backup wrote (pa) becomes unused
+            a = set(rng.sample(tops, rng.randint(1, len(tops) - 1)))
+            if pruned:
+                a = (a | {"pa"}) - {"pb"}
+            b = {t for t in tops if t not in a} | ({t for t in a if rng.random() < 0.3} if rng.random() < 0.2 else set())
+            p["dest_cfg"]["pack"] = 20000 if pruned else rng.choice([600, 3000])
+            p["dest_pre"] = [[dict(e) for e in full if e["path"].split("/")[0] in a], [dict(e) for e in full],
+                             [dict(e) for e in full if e["path"].split("/")[0] in b]]
+            p["dest_forget"] = [0, 1]
+            p["dest_prune"] = {"instant": rng.random() < 0.7, "max_repack": "0" if pruned and k % 2 == 0 else rng.choice(["0", "10%", "unlimited"]),
+                               "max_unused": rng.choice(["5%", "unlimited"])}
     if collide:
         dirs = [e["path"] for e in base if e["kind"] == "dir"]
         if not dirs:
@@ -211,7 +234,7 @@ def run(ctx):
     for i in range(n["repair"]):
         add(repair_prog(rng, "c12-%d-p%d" % (ctx.seed, i), ["none", "data", "tree"][i % 3]))
     for i in range(n["copy"]):
-        add(copy_prog(rng, "c12-%d-c%d" % (ctx.seed, i), collide=i % 4 == 0, k=i // 4))
+        add(copy_prog(rng, "c12-%d-c%d" % (ctx.seed, i), collide=i % 4 == 0, k=i // 4, pruned=i % 4 == 1))
     pf = os.path.join(ctx.out, "programs.ndjson")
     open(pf, "w").write("\n".join(json.dumps(p) for p in progs.values()) + "\n")
     trace = os.path.join(ctx.out, "trace.ndjson")
@@ -234,6 +257,10 @@ def run(ctx):
     marked = sum(1 for x in rep for o in x["outputs"] for p, nd in o["nodes"].items() if nd["base"])
     undamaged = sum(1 for x in rep if x["removed_packs"] == 0)
     cop = [x for x in recs if x["e"] == "copy" and x["result"] == "ok"]
+    unhealthy = [x["id"] for x in recs if x.get("dest_check_pre", "clean") != "clean"]
+    if unhealthy:
+        raise vlib.ToolError("copy: the destination was not clean before the copy in %s" % unhealthy[:3])
+    ctx.extra["copies_into_pruned_destination"] = sum(1 for x in cop if "dest_check_pre" in x)
     collisions = sum(1 for x in cop if "collide_id" in x)
     if not (conflicts and removed and marked and undamaged and cop and collisions):
         raise vlib.ToolError("vacuity: merge type conflicts %d, rewritten-away nodes %d, marked files %d, undamaged repairs %d, copies %d, collisions %d"
